@@ -17,7 +17,7 @@ cp $DEMO $WT/$PKG/zz_verif_demo_test.go
 # the demo alone on base: run only demo tests by listing their names
 NAMES=$(grep -ho 'func Test[A-Za-z0-9_]*' $DEMO | sed 's/func //' | paste -sd'|')
 ( cd $WT && go test -tags "${DEMO_TAGS:-}" -vet=off -count=1 -run "^($NAMES)\$" ./$PKG/ >/tmp/seed-$SID-demo-base.log 2>&1 ); DBASE=$?
-( cd $WT && git apply $DST/patch.diff ) || { echo "patch does not apply"; git -C /repo worktree remove --force $WT; exit 2; }
+( cd $WT && { git apply $DST/patch.diff 2>/dev/null || git apply -3 $DST/patch.diff; } ) || { echo "patch does not apply"; git -C /repo worktree remove --force $WT; exit 2; }
 ( cd $WT && go build ./... ) || { echo "does not build"; }
 ( cd $WT && go test -tags "${DEMO_TAGS:-}" -vet=off -count=1 -run "^($NAMES)\$" ./$PKG/ >/tmp/seed-$SID-demo-mut.log 2>&1 ); DMUT=$?
 rm $WT/$PKG/zz_verif_demo_test.go
